@@ -123,6 +123,12 @@ func (c channel) snippetW(letter string, w int) string {
 // features that a known finding may quarantine: every helper channel, plus "noprep"
 func quarantinable() []string {
 	out := []string{"noprep", "autoload.c", "autoload.i"}
+	for t := 0; t < 5; t++ {
+		out = append(out, "autoload.c."+autoloadTrigName('c', t))
+	}
+	for t := 0; t < 4; t++ {
+		out = append(out, "autoload.i."+autoloadTrigName('i', t))
+	}
 	for _, c := range channels {
 		if c.Group == 't' {
 			out = append(out, c.Name)
@@ -171,7 +177,7 @@ func prelude(names int, off map[string]bool) string {
 	sb.WriteString("C12Hub::$cbs['inc'] = function($p) { include $p; return 1; };\n")
 	// definition route "autoload": a callback registered on the base VM (temp VMs use the base
 	// VM's callback list) includes the file the harness points it to for the duration of one look-up
-	sb.WriteString("C12Hub::$cbs['auto'] = function($c) { $p = C12Hub::$auto[$c] ?? ''; if ($p != '') { include $p; } };\nspl_autoload_register(C12Hub::$cbs['auto']);\n")
+	sb.WriteString(`C12Hub::$cbs['auto'] = function($c) { if (substr($c, 0, 1) == '\\') { $c = substr($c, 1); } $p = C12Hub::$auto[$c] ?? ''; if ($p != '') { include $p; } };` + "\nspl_autoload_register(C12Hub::$cbs['auto']);\n")
 	return sb.String()
 }
 
@@ -227,7 +233,7 @@ func defSource(dk byte, name, variant, serial int) (src string, route int) {
 			return "<?php\nclass K" + l + body + "\n", routeClosureInc
 		case 6:
 			return "<?php\nclass K" + l + body + "\n", routeEval
-		case 7:
+		case 7, 8, 9, 10, 11: // autoload, look-up form = variant-7 (see autoloadTrigger)
 			return "<?php\nclass K" + l + body + "\n", routeAutoload
 		}
 		return "<?php\nclass K" + l + body + "\n", routeDirect
@@ -242,7 +248,7 @@ func defSource(dk byte, name, variant, serial int) (src string, route int) {
 			return "<?php\ninterface I" + l + body + "\n", routeClosureInc
 		case 4:
 			return "<?php\ninterface I" + l + body + "\n", routeEval
-		case 5:
+		case 5, 6, 7, 8: // autoload, look-up form = variant-5
 			return "<?php\ninterface I" + l + body + "\n", routeAutoload
 		}
 		return "<?php\ninterface I" + l + body + "\n", routeDirect
@@ -408,6 +414,12 @@ func (x *executor) runScript(i int, src, path string) (out string, errText strin
 	var p *parser.Parser
 	if i == 0 {
 		p = x.bp.Clone()
+	} else if x.c.NoPrep {
+		// as HotHandler does: the code is parsed by a parser that resolves through the TempVM, but
+		// the TempVM itself is never given a parser by the harness - origami binds one when it
+		// needs it (loaderParser / LoadAndRun)
+		p = x.bp.Clone()
+		p.SetVM(x.temps[i])
 	} else {
 		p = x.temps[i].PrepareParse(x.bp)
 	}
@@ -641,6 +653,52 @@ func (x *executor) observeScript(vm int, chs []channel, names []int, related fun
 		}
 		x.judge(vm, c.ch, c.n, val, related(vm, c.ch.Kind, c.n))
 	}
+}
+
+// autoloadTrigger performs one look-up of a not-yet-defined name on the VM, in one of several
+// forms (script or Go API, plain or with a leading backslash), and describes it.
+// autoloadTrigName names the look-up form (used in keys and as quarantine feature "autoload.<kind>.<form>").
+func autoloadTrigName(dk byte, trig int) string {
+	if dk == 'i' {
+		return []string{"iex", "iex-bs", "GetOrLoadInterface", "GetOrLoadInterface-bs"}[trig]
+	}
+	return []string{"cex", "cex-bs", "GetOrLoadClass", "GetOrLoadClass-bs", "LoadPkg"}[trig]
+}
+
+func (x *executor) autoloadTrigger(vm int, dk byte, nm string, trig int, runner string) string {
+	v := x.vm(vm)
+	bs := "\\" + nm // \Ka
+	if dk == 'i' {
+		switch trig {
+		case 1:
+			x.runScript(vm, "<?php\n$r = interface_exists('\\\\"+nm+"');\n", runner)
+			return "interface_exists('\\\\" + nm + "')"
+		case 2:
+			_, _ = v.GetOrLoadInterface(nm)
+			return "GetOrLoadInterface(" + nm + ")"
+		case 3:
+			_, _ = v.GetOrLoadInterface(bs)
+			return "GetOrLoadInterface(" + bs + ")"
+		}
+		x.runScript(vm, "<?php\n$r = interface_exists('"+nm+"');\n", runner)
+		return "interface_exists('" + nm + "')"
+	}
+	switch trig {
+	case 1:
+		x.runScript(vm, "<?php\n$r = class_exists('\\\\"+nm+"');\n", runner)
+		return "class_exists('\\\\" + nm + "')"
+	case 2:
+		_, _ = v.GetOrLoadClass(nm)
+		return "GetOrLoadClass(" + nm + ")"
+	case 3:
+		_, _ = v.GetOrLoadClass(bs)
+		return "GetOrLoadClass(" + bs + ")"
+	case 4:
+		_, _ = v.LoadPkg(nm)
+		return "LoadPkg(" + nm + ")"
+	}
+	x.runScript(vm, "<?php\n$r = class_exists('"+nm+"');\n", runner)
+	return "class_exists('" + nm + "')"
 }
 
 // judgeProp judges the static-property channels. A read must show a value held by a definition
@@ -887,10 +945,16 @@ func runCase(c Case, off map[string]bool, dir string, verbose bool) (res caseRes
 				}
 				variant := o.Var
 				_, route := defSource(o.DK, o.Name, variant, 0)
-				if route == routeAutoload && (len(x.m.Candidates(o.VM, o.DK, o.Name)) > 0 || x.off["autoload."+string(o.DK)]) {
-					// the look-up would succeed without loading anything: define directly instead
-					variant = 0
-					route = routeDirect
+				if route == routeAutoload {
+					trig := variant - 7
+					if o.DK == 'i' {
+						trig = variant - 5
+					}
+					if len(x.m.Candidates(o.VM, o.DK, o.Name)) > 0 || x.off["autoload."+string(o.DK)] || x.off["autoload."+string(o.DK)+"."+autoloadTrigName(o.DK, trig)] {
+						// the look-up would succeed without loading anything (or the form is quarantined): define directly instead
+						variant = 0
+						route = routeDirect
+					}
 				}
 				var serial int
 				if route == routeClosureDecl {
@@ -922,39 +986,47 @@ func runCase(c Case, off map[string]bool, dir string, verbose bool) (res caseRes
 					_, et = x.runScript(o.VM, "<?php\n$f=C12Hub::$cbs['decl_"+nameLetter(o.Name)+"'];$f();\n", runner)
 				case routeAutoload:
 					nm := string(kindPrefix(o.DK)) + nameLetter(o.Name)
-					look := "class_exists"
+					trig := variant - 7
 					if o.DK == 'i' {
-						look = "interface_exists"
+						trig = variant - 5
 					}
-					var out string
-					out, et = x.runScript(o.VM, "<?php\nC12Hub::$auto['"+nm+"'] = '"+path+"';\n$r = "+look+"('"+nm+"') ? 'OK' : 'ERR';\nC12Hub::$auto['"+nm+"'] = '';\necho $r;\n", runner)
-					if et != "" || !strings.Contains(out, "OK") {
-						// the callback did not load it (not this property's business): nothing defined
+					// the base VM's callback is pointed at the file for the duration of one look-up
+					// (set and reset from the base VM, so that nothing is run on the temp VM but the look-up)
+					if _, e1 := x.runScript(0, "<?php\nC12Hub::$auto['"+nm+"'] = '"+path+"';\n", runner); e1 != "" {
+						x.res.Aborted = "cannot arm the autoload callback: " + e1
+						return
+					}
+					how := x.autoloadTrigger(o.VM, o.DK, nm, trig, runner)
+					x.runScript(0, "<?php\nC12Hub::$auto['"+nm+"'] = '';\n", runner)
+					resolves := func(vm data.VM) bool {
+						if o.DK == 'i' {
+							c, ok := vm.GetInterface(nm)
+							return ok && c != nil && serialOf(c) == strconv.Itoa(serial)
+						}
+						c, ok := vm.GetClass(nm)
+						return ok && c != nil && serialOf(c) == strconv.Itoa(serial)
+					}
+					if verbose {
+						x.trace = append(x.trace, "  autoload look-up: "+how)
+					}
+					if o.VM != 0 && resolves(x.base) {
+						// asked directly so that one defect gives one key, not one per channel
+						x.violation(fmt.Sprintf("leak/route.autoload.%c.%s/into-base", o.DK, autoloadTrigName(o.DK, trig)),
+							fmt.Sprintf("%s, autoloaded by the look-up %s made through %s, was registered on the BASE VM (visible to base and every temp VM)", nm, how, vmName(o.VM)))
+						x.res.Aborted = "autoloaded definition landed on the base VM"
+						return
+					}
+					if !resolves(x.vm(o.VM)) {
+						// the look-up did not load it (not this property's business): nothing defined
 						x.m.Undo(o.VM, o.DK, o.Name, serial)
 						if o.VM != 0 {
 							x.res.TempDefs--
 						}
 						if verbose {
-							x.trace = append(x.trace, fmt.Sprintf("  autoload did not define it (%q %s)", out, et))
-						}
-						et = ""
-					} else if o.VM != 0 {
-						// where did it land? (asked directly so that one defect gives one key, not one per channel)
-						var landed any
-						if o.DK == 'i' {
-							if c, ok := x.base.GetInterface(nm); ok && c != nil {
-								landed = c
-							}
-						} else if c, ok := x.base.GetClass(nm); ok && c != nil {
-							landed = c
-						}
-						if landed != nil && serialOf(landed) == strconv.Itoa(serial) {
-							x.violation(fmt.Sprintf("leak/route.autoload.%c/into-base", o.DK),
-								fmt.Sprintf("%s defined by an autoload callback during a look-up made through %s was registered on the BASE VM (visible to base and every temp VM)", nm, vmName(o.VM)))
-							x.res.Aborted = "autoloaded definition landed on the base VM"
-							return
+							x.trace = append(x.trace, "  autoload did not define it")
 						}
 					}
+					et = ""
 				case routeEval:
 					// eval() may be refused on a VM (HEAD refuses it on a TempVM): then nothing was
 					// defined and the model forgets the attempt. If it reports success the
